@@ -36,7 +36,9 @@ TEXT = {
               'Standard configuration (d = false): stdOut_respects (printing), opEq/opLt/opContains_prep_vrel and '
               'equal_prep_repEq (comparisons), filterRespects_std / filterRespects_std_upto (every standard filter except uniq; '
               'filterRespects_of_scalar: any filter whose parameters are all bool/int/float64/string/time, whatever its body; sort '
-              'and sort_natural through List.map_mergeSort, up to their unmodelled tie order) give '
+              'and sort_natural exactly on at most 12 elements (congruence of the insertion-sort model insertionSortM: '
+              'sortWith_rel_short, sortNaturalWith_rel_short) and through List.map_mergeSort up to their unmodelled tie order '
+              'beyond) give '
               'run_std_rep_independent_partial / run_std_rep_independent_without_uniq: on the standard engine with any set of '
               'registered filters that excludes uniq every template renders to agreeing results (equal, or one run is outside the '
               'model) for environments that differ in typed vs generic slices, fixed arrays, typed maps at any depth and in '
